@@ -33,8 +33,11 @@ GRACE = 1000000
 
 
 class JobError(Exception):
+    """the exception raised by job `origin`; its message varies with the job (ordinary, empty, several
+    lines, non-ASCII): the library prints it in verbose mode and in list()/debrief()"""
     def __init__(self, origin):
-        super().__init__("job %d raised" % origin)
+        msg = ("job %d raised" % origin, "", "job %d raised\nsecond line" % origin, "t\u00e2che %d \u2620" % origin)[origin % 4]
+        super().__init__(msg)
         self.origin = origin
 
 
